@@ -195,6 +195,15 @@ class C13(Check):
         for q in qs:
             if q not in c.all_qubits():
                 c.append(cirq.I(q))
+        if deep:
+            # measure every qubit separately at the end: after the first few (random) outcomes the remaining
+            # ones are determined, each as a product of several generator rows of the tableau
+            for i in tape.shuffle(list(range(n)), "final-order"):
+                if bits + 1 > 7:
+                    break
+                bits += 1
+                c.append(cirq.measure(qs[i], key=f"z{i}"), strategy=cirq.InsertStrategy.NEW)
+            feats.add("final-measure-all")
         return c, qs, bits, feats
 
     @staticmethod
@@ -241,7 +250,7 @@ class C13(Check):
         sp = self.sp
         ctx.workload = "stabilizer"
         sut = ["ch-steps", "ch-act_on", "tableau-act_on", "simulate", "run", "stab-sampler", "clifford-state"][
-            tape.weighted([4, 3, 5, 2, 2, 2, 1], "sut")]
+            tape.weighted([4, 3, 7, 2, 2, 2, 1], "sut")]
         if sut == "clifford-state":
             return self._clifford_state(tape, ctx)
         allow_mixture = sut in ("simulate", "run", "ch-act_on", "tableau-act_on") and tape.chance(1, 3, "mixtures?")
@@ -355,6 +364,9 @@ class C13(Check):
         cirq = self.cirq
         sp = self.sp
         per_op = sut != "ch-steps"
+        # long histories: compare after every measurement and at the end only (the reference still
+        # advances operation by operation)
+        sparse_checks = per_op and len(list(circuit.all_operations())) > 24
         ref, trace = self._reference_trace(circuit, qs, per_op)
         n = len(qs)
         ops = list(circuit.all_operations())
@@ -405,6 +417,8 @@ class C13(Check):
             if sut.startswith("ch") and n_coins >= 3:
                 ctx.probe("ch:multi-coin-measure")
             for i, (meas, vec, tab) in enumerate(snaps):
+                if sparse_checks and i != len(snaps) - 1 and not cirq.is_measurement(ops[i]):
+                    continue
                 cands = self._match(trace[i], meas)
                 where = f"after {'operation' if per_op else 'moment'} {i} ({ops[i] if per_op else ''})"
                 if not cands:
